@@ -890,6 +890,7 @@ func (s *session) startReadAndHandle() {
 	}()
 	// read call, call reply or push
 	for s.goonRead() {
+		vp("read.next", s, 0, 0)
 		var ctx = s.peer.getContext(s, false)
 		withContext(ctx.input)
 		if s.peer.pluginContainer.preReadHeader(ctx) != nil {
@@ -920,7 +921,7 @@ func (s *session) write(message Message) (net.Conn, *Status) {
 	usedConn := s.getConn()
 	status := s.getStatus()
 	if !(status == statusOk || (status == statusActiveClosing && message.Mtype() == TypeReply)) {
-		vp("write.refused", s, int64(status), int64(message.Mtype()))
+		vp("write.refused", s, int64(message.Seq()), int64(status))
 		return usedConn, statConnClosed
 	}
 
